@@ -72,7 +72,7 @@ def main(tier):
         run.cov["rule"] = ("images: seeded keytab models (versions 1/2, 0..8 items, holes, 0..4 components, names of 0..300 bytes, key types incl. "
                            "unsupported/negative ids, timestamps and kvno over the 32-bit range, with/without the 32-bit kvno, trailing bytes) "
                            "rendered by KeytabFormat.tla; look-ups: every keytab of <= 2 (thorough 3) entries within two deviations of a base "
-                           "entry (incl. prefix/extension of components, other realm/etype, kvno + 256) x 80 queries, enumerated by TLC. distinct = "
+                           "entry (incl. prefix/extension of components, other realm/etype, kvno + 256), each written under three clocks (recent dates, time stamps 0 and 1, the last values of the 32-bit field) x 80 queries, enumerated by TLC. distinct = "
                            "distinct non-empty images + distinct (keytab, query) pairs")
         for x in (imgs[1] if len(imgs) > 1 else None, lk[100] if len(lk) > 100 else None):
             if x:
